@@ -112,11 +112,13 @@ type Flow struct {
 	callsMem map[ssa.Value]map[*ssa.Call]bool
 	infMemo  map[ssa.Value]APSet
 	rawMemo  map[ssa.Value]APSet
+	cuts     int // number of recursion cuts taken so far (a summary computed across a cut is partial and not memoised)
 }
 
 type sumKey struct {
-	fn  *ssa.Function
-	idx int
+	fn    *ssa.Function
+	idx   int
+	depth int
 }
 
 func NewFlow(w *World) *Flow {
@@ -738,7 +740,17 @@ func (c *flowCtx) enter(fn *ssa.Function, args []ssa.Value, resIdx int, call *ss
 		c.calls[k] = true
 	}
 	argPaths := map[int]APSet{}
+	keys := make([]AP, 0, len(sum))
 	for a := range sum {
+		keys = append(keys, a)
+	}
+	sort.Slice(keys, func(i, j int) bool {
+		if keys[i].Path != keys[j].Path {
+			return keys[i].Path < keys[j].Path
+		}
+		return keys[i].String() < keys[j].String()
+	})
+	for _, a := range keys {
 		switch r := a.Root.(type) {
 		case *ssa.Parameter:
 			if r.Parent() == fn {
@@ -772,15 +784,18 @@ func (c *flowCtx) enter(fn *ssa.Function, args []ssa.Value, resIdx int, call *ss
 // summary: access paths (rooted at fn's own parameters, globals, opaque calls)
 // influencing result resIdx of fn.
 func (fl *Flow) summary(fn *ssa.Function, resIdx int, depth int) (APSet, map[*ssa.Call]bool) {
-	k := sumKey{fn, resIdx}
+	k := sumKey{fn, resIdx, depth}
 	if s, ok := fl.sumMemo[k]; ok {
 		return s, fl.sumCalls[k]
 	}
-	if fl.sumBusy[k] {
+	busyKey := sumKey{fn, resIdx, -1}
+	if fl.sumBusy[busyKey] {
+		fl.cuts++
 		return APSet{}, nil
 	}
-	fl.sumBusy[k] = true
-	defer delete(fl.sumBusy, k)
+	fl.sumBusy[busyKey] = true
+	defer delete(fl.sumBusy, busyKey)
+	cuts0 := fl.cuts
 	c := &flowCtx{fl: fl, visit: map[ssa.Value]bool{}, calls: map[*ssa.Call]bool{}, depth: depth, closure: map[*ssa.Parameter]APSet{}}
 	out := APSet{}
 	for _, b := range fn.Blocks {
@@ -797,9 +812,9 @@ func (fl *Flow) summary(fn *ssa.Function, resIdx int, depth int) (APSet, map[*ss
 			}
 		}
 	}
-	// only memoise summaries computed with full remaining depth budget semantics:
-	// the result is context-free except for the depth cut-off; key on depth<=2 to stay precise
-	if depth <= 2 {
+	// memoise only complete results: a computation that crossed a recursion cut depends on the
+	// caller stack and would make later answers depend on the order of queries
+	if fl.cuts == cuts0 {
 		fl.sumMemo[k] = out
 		fl.sumCalls[k] = c.calls
 	}
